@@ -43,6 +43,7 @@ package types
 //@   at return: assert integers-keep-their-width: result == nil && localor("value", nil) != nil && (columnType == 5 || columnType == 4 || columnType == -5) ==> (columnType == 5 && isT(c.Value, int16)) || isT(c.Value, int32) && columnType != -5 || isT(c.Value, int64) || isT(c.Value, float64)
 //@   at return: assert integers-are-read-back-exactly: result == nil && localor("value", nil) != nil && isT(value, float64) && ((columnType == -6 && -128 <= trunc(value.(float64)) && trunc(value.(float64)) <= 255) || (columnType == 5 && -32768 <= trunc(value.(float64)) && trunc(value.(float64)) <= 65535) || (columnType == 4 && -2147483648 <= trunc(value.(float64)) && trunc(value.(float64)) <= 4294967295)) ==> (isT(c.Value, int8) && c.Value.(int8) == trunc(value.(float64))) || (isT(c.Value, int16) && c.Value.(int16) == trunc(value.(float64))) || (isT(c.Value, int32) && c.Value.(int32) == trunc(value.(float64))) || (isT(c.Value, int64) && c.Value.(int64) == trunc(value.(float64)))
 //@   at return: assert a-value-is-never-read-back-as-null: result == nil && localor("value", nil) != nil ==> c.Value != nil
+//@   at return: assert times-come-back-as-times: result == nil && localor("value", nil) != nil && (columnType == 91 || columnType == 92 || columnType == 93) ==> isT(c.Value, time.Time)
 //@   at return: assert binary-comes-back-as-bytes: result == nil && localor("value", nil) != nil && isT(value, string) && (columnType == -2 || columnType == -3 || columnType == -4) ==> isT(c.Value, []byte)
 //@   at return: assert numbers-stay-numbers: result == nil && localor("value", nil) != nil && (columnType == -6 || columnType == 7) ==> isT(c.Value, int8) || isT(c.Value, int16) || isT(c.Value, int32) || isT(c.Value, int64) || isT(c.Value, float32) || isT(c.Value, float64)
 //@   nopanic
